@@ -25,7 +25,7 @@ KDG = "osaca/semantics/kernel_dg.py"
 FE = "osaca/frontend.py"
 TRUSTED = ["pyvc symbolic semantics; z3 5.1.0", "copy.copy of an InstructionForm = new object with the same attribute bindings (A)"]
 ASSUMPTIONS = [
-    "phase (a): kernel length <= 3 (symbolic line numbers) - label Pb",
+    "phase (a) (doubling): proved for any kernel length with the line numbers positive (1-based file lines); the <= 3-line unit (label Pb) additionally runs the real copy.copy on concrete objects (object identity of copies, untouched originals)",
     "cycle-set characterisation (phases b-d, winding number 1) decided by the bounded oracle comparison, not by proof",
     "networkx all_simple_paths (A) is exercised for real in the bounded unit",
 ]
@@ -76,6 +76,91 @@ def doubling_unit(res):
             frame = all(k[i].fields[a] is p.extra["snapshot"][i][a] for i in range(n) for a in k[i].fields)
             res.add(f"n{n}/shallow-copies", p.pc, bool(same), label="Pb")
             res.add(f"n{n}/frame-originals-untouched", p.pc, bool(frame), label="Pb")
+    return res
+
+
+def doubling_any_unit(res):
+    """P: the doubling phase of check_for_loopcarried_dep (real code) for kernels of ANY length with arbitrary positive line
+    numbers: offset > every line number of the kernel (so the numbers of the second copy are disjoint from the
+    first's: lemma); the list handed to create_DG is the kernel itself followed, for every k, by exactly one shallow copy of
+    kernel[k] whose line number is kernel[k]'s plus the offset (the original keeps its number: copies are separate objects);
+    create_DG gets that list and the flag-dependency option unchanged."""
+    from pyvc.sym import RefCopy
+    ex = Engine([REPO + "/" + KDG])
+    fn, _ = ex.find_method("KernelDG", "check_for_loopcarried_dep")
+    ex.index_loops(fn)
+    I_ = z3.IntSort()
+    klen = z3.Int("klen")
+    lines = z3.Function("line_no", I_, I_)
+    ins = Schema("insd", ["InstructionForm"], {"line_number": ("int",)})
+    ins.fn["line_number"] = lines
+    flagdep = z3.Bool("flag_dependencies")
+    st = {}
+
+    class TK:
+        """the growing list: the kernel it started from + the appended items of the current iteration"""
+        def __init__(self, base):
+            self.base, self.calls = base, []
+
+        def sym_havoc(self, ex_, tag):
+            return self
+
+        def sym_method(self, ex_, name, a, kw):
+            if name == "append":
+                self.calls.append(a[0])
+                return None
+            raise Unsupported("list." + name)
+
+    class Hook:
+        def pre_havoc(self, ex_, env):
+            tk = env.get("tmp_kernel")
+            q = z3.Int("q0")
+            ok = isinstance(tk, SymSeq)
+            ex_.oblige("doubling/list-starts-as-the-kernel", z3.And(tk.length == klen, z3.ForAll([q], z3.Implies(z3.And(0 <= q, q < klen), tk.at(q).t == q))) if ok else z3.BoolVal(False))
+            env["tmp_kernel"] = st["tk"] = TK(tk)
+            off = env["offset"]
+            st["off"] = num_term(off)[0]
+            i = z3.Int("i_any")
+            ex_.oblige("doubling/offset-above-every-line", z3.Implies(z3.And(0 <= i, i < klen), lines(i) < st["off"]))
+
+        def on_body_start(self, ex_, env, k):
+            st["tk"].calls.clear()
+
+        def on_body_end(self, ex_, env, k):
+            calls = st["tk"].calls
+            ok = len(calls) == 1 and isinstance(calls[0], RefCopy) and isinstance(calls[0].orig, SRef) and set(calls[0].over) == {"line_number"}
+            ex_.oblige("doubling/one-shallow-copy-per-line-with-number+offset",
+                       z3.And(calls[0].orig.t == k, num_term(calls[0].over["line_number"])[0] == lines(k) + st["off"]) if ok else z3.BoolVal(False))
+
+    ex.loop_hooks[("check_for_loopcarried_dep", 0)] = Hook()
+    ex.invariants[("check_for_loopcarried_dep", 0)] = lambda ex_, env, k: z3.BoolVal(True)
+
+    def create_DG(ex_, so, a, kw):
+        ex_.extra["dg_args"] = (a, kw)
+        raise PathEnd()
+
+    ex.abstract["create_DG"] = create_DG
+
+    def run():
+        kernel = SymSeq(klen, lambda i: SRef(i, ins))
+        ex.call_method("KernelDG", "check_for_loopcarried_dep", SObj("KernelDG", kernel=kernel), [kernel, -1, SBool(flagdep)])
+
+    q = z3.Int("q")
+    paths = ex.explore(run, [klen >= 1, z3.ForAll([q], lines(q) >= 1)])
+    reached = 0
+    res.add_paths(paths, None, kind="doubling")
+    for p in paths:
+        if "dg_args" in p.extra:
+            reached += 1
+            a, kw = p.extra["dg_args"]
+            fd = a[1] if len(a) > 1 else kw.get("flag_dependencies")
+            res.add("doubling/create_DG-gets-the-doubled-list-and-the-option", p.pc, z3.And(z3.BoolVal(a[0] is st["tk"]), bool_term(fd) == flagdep if isinstance(fd, (SBool, bool)) else z3.BoolVal(False)))
+    res.add("doubling/reaches-create_DG", [], reached >= 1)
+    # lemma: the numbers of the second copy are disjoint from the first's and pairwise distinct iff the first's are
+    off, i, j = z3.Ints("offset i j")
+    hyp = [z3.ForAll([q], z3.Implies(z3.And(0 <= q, q < klen), z3.And(lines(q) >= 1, lines(q) < off))), 0 <= i, i < klen, 0 <= j, j < klen]
+    res.add("lemma/second-copy-disjoint-from-first", hyp, lines(j) + off != lines(i), label="L")
+    res.add("lemma/second-copy-distinct-iff-first", hyp, (lines(i) + off == lines(j) + off) == (lines(i) == lines(j)), label="L")
     return res
 
 
@@ -190,6 +275,7 @@ def units(tier):
         Unit("C05/check_for_loopcarried_dep/partition(kernels >= 50 lines)", partition_unit, "P", [(KDG, "KernelDG.check_for_loopcarried_dep")]),
         Unit("C05/_extend_path", extend_path_unit, "P", [(KDG, "KernelDG._extend_path")]),
         bounded_unit("C05/parallel-search-equals-sequential", "c16_parallel", [(KDG, "KernelDG.check_for_loopcarried_dep")], timeout=1800),
+        Unit("C05/check_for_loopcarried_dep/doubling(any kernel length)", doubling_any_unit, "P", [(KDG, "KernelDG.check_for_loopcarried_dep")]),
         Unit("C05/check_for_loopcarried_dep/doubling", doubling_unit, "Pb", [(KDG, "KernelDG.check_for_loopcarried_dep")]),
         bounded_unit("C05/pipeline-vs-cycle-oracle", "dg_oracle", [(KDG, "KernelDG.check_for_loopcarried_dep"), (KDG, "KernelDG._extend_path"),
                      (KDG, "KernelDG.create_DG")], extra_args=["C05"], timeout=1500, decisive=True),
